@@ -39,6 +39,7 @@
 (* Bug # "none" seeds a defect into the model (sensitivity of the rule):   *)
 (*   "reverse"   output[i] built from tasks[n-1-i]                         *)
 (*   "sharedidx" the stream convert closure uses the shared loop variable  *)
+(*   "dropempty" the stream convert function skips empty frames            *)
 (*   "noinlinewait" the result is assembled without waiting for the        *)
 (*               goroutines (wg.Wait dropped)                              *)
 (***************************************************************************)
@@ -50,7 +51,7 @@ CONSTANTS MaxCalls,     \* 1..4
           Graphs,       \* subset of BOOLEAN: inside a graph?
           Handlers,     \* subset of {"none", "ok", "fail"} used when an unknown name is called
           Kinds,        \* subset of {"inv", "str", "both"}
-          Behs,         \* subset of {"ok", "fail", "panic", "failmid"}
+          Behs,         \* subset of {"ok", "empty", "fail", "panic", "failmid"}
           MaxChunks,    \* 1..2
           AllowUnknown, \* BOOLEAN
           MaxFaulty,    \* at most this many tools with beh # ok
@@ -70,7 +71,7 @@ N == Len(sc.calls)
 PoolIdx(nm) == CHOOSE j \in 1..3 : Pool[j] = nm
 UsedCount == Cardinality({sc.calls[i].name : i \in 1..N} \ {Unknown})
 HasUnknown == \E i \in 1..N : sc.calls[i].name = Unknown
-NewTask == [step |-> 0, done |-> FALSE, err |-> "", output |-> "", avail |-> <<>>, eof |-> FALSE]
+NewTask == [step |-> 0, done |-> FALSE, err |-> "", output |-> "", avail |-> <<>>, eof |-> FALSE, seen |-> FALSE]
 
 Init == /\ pc = "calls"
         /\ sc \in [mode : Modes, graph : Graphs, handler : {"none"}, calls : {<<>>}, tools : {<<Decoy>>}]
@@ -87,13 +88,13 @@ AddCall(nm) ==
 
 ToTools == /\ pc = "calls" /\ N >= 1 /\ pc' = "tools" /\ UNCHANGED <<sc, spawned, ts, S, sched>>
 
-Faulty == Cardinality({j \in 1..Len(sc.tools) : sc.tools[j].beh # "ok"})
+Faulty == Cardinality({j \in 1..Len(sc.tools) : sc.tools[j].beh \notin {"ok", "empty"}})
 \* attributes that cannot matter are fixed: chunks only for a tool that streams in this mode, failmid likewise
 Streams(kind) == IF sc.mode = "invoke" THEN kind = "str" ELSE kind \in {"str", "both"}
 AddTool(k, b, ch) ==
   /\ pc = "tools" /\ Len(sc.tools) - 1 < UsedCount
   /\ k \in Kinds /\ b \in Behs /\ ch \in 1..MaxChunks
-  /\ (b # "ok" => Faulty < MaxFaulty)
+  /\ (b \notin {"ok", "empty"} => Faulty < MaxFaulty)
   /\ (~Streams(k) => ch = 1 /\ b # "failmid")
   /\ (b \in {"fail", "panic"} => ch = 1)
   /\ (b = "failmid" => ch = MaxChunks)
@@ -117,13 +118,17 @@ ToolOf(i) == CHOOSE t \in Range(sc.tools) : t.name = sc.calls[i].name
 Form(i) == IF IsUnknown(i) THEN "i"
            ELSE IF sc.mode = "invoke" THEN (IF ToolOf(i).kind = "str" THEN "s" ELSE "i")
            ELSE (IF ToolOf(i).kind = "inv" THEN "i" ELSE "s")
+\* beh "empty": the tool works, its whole output is the empty string (a streaming tool emits only "" frames)
+Empty(i) == ~IsUnknown(i) /\ ToolOf(i).beh = "empty"
 Beh(i) == IF IsUnknown(i) THEN (IF sc.handler = "fail" THEN "fail" ELSE "ok")
-          ELSE IF Form(i) = "i" /\ ToolOf(i).beh = "failmid" THEN "fail" ELSE ToolOf(i).beh
+          ELSE IF Form(i) = "i" /\ ToolOf(i).beh = "failmid" THEN "fail"
+          ELSE IF ToolOf(i).beh = "empty" THEN "ok" ELSE ToolOf(i).beh
 NChunks(i) == IF Form(i) = "s" THEN ToolOf(i).chunks ELSE 1
 ChunkSeq(i) == LET nm == sc.calls[i].name
                    ar == sc.calls[i].args IN
-               IF NChunks(i) = 1 THEN <<nm \o "(" \o ar \o ")">> ELSE <<nm \o "(", ar \o ")">>
-FullOut(i) == sc.calls[i].name \o "(" \o sc.calls[i].args \o ")"
+               IF Empty(i) THEN [k \in 1..NChunks(i) |-> ""]
+               ELSE IF NChunks(i) = 1 THEN <<nm \o "(" \o ar \o ")">> ELSE <<nm \o "(", ar \o ")">>
+FullOut(i) == IF Empty(i) THEN "" ELSE sc.calls[i].name \o "(" \o sc.calls[i].args \o ")"
 NSteps(i) == IF Form(i) = "i" \/ Beh(i) \in {"fail", "panic"} THEN 1
              ELSE IF Beh(i) = "failmid" THEN 3 ELSE 1 + NChunks(i)
 TEnd(i, res, out) == [ev |-> "tend", name |-> sc.calls[i].name, args |-> sc.calls[i].args, h |-> IsUnknown(i), res |-> res, out |-> out]
@@ -221,15 +226,19 @@ Recv(i) ==
      ELSE IF Bug = "sharedidx"
      THEN \* ret[n] with the shared loop variable: index out of range, recovered into an error item of the stream
           /\ S' = Finish2(S, [ev |-> "error", errs |-> <<>>, panic |-> TRUE]) /\ pc' = "done" /\ UNCHANGED ts
+     ELSE IF Bug = "dropempty" /\ it = ""
+     THEN \* the convert function answers ErrNoValue for an empty frame: the frame is skipped
+          /\ ts' = [ts EXCEPT ![i].avail = Tail(@)] /\ UNCHANGED <<S, pc>>
      ELSE /\ S' = Apply(S, [ev |-> "chunk", n |-> N, items |-> <<[i |-> i, id |-> sc.calls[i].id, role |-> "tool", content |-> it]>>])
-          /\ ts' = [ts EXCEPT ![i].avail = Tail(@), ![i].output = (IF Form(i) = "s" THEN @ \o it ELSE @)]
+          /\ ts' = [ts EXCEPT ![i].avail = Tail(@), ![i].output = (IF Form(i) = "s" THEN @ \o it ELSE @), ![i].seen = TRUE]
           /\ UNCHANGED pc
   /\ UNCHANGED <<sc, spawned, sched>>
 
 \* EOF of the merged stream; the library concatenation is position-wise (what the model accumulated in .output)
 Finish ==
   /\ pc = "consume" /\ \A i \in 1..N : ts[i].eof /\ ts[i].avail = <<>>
-  /\ S' = Finish2(S, [ev |-> "result", out |-> [i \in 1..N |-> [id |-> sc.calls[i].id, role |-> "tool", content |-> ts[i].output, nil |-> FALSE]]])
+  /\ S' = Finish2(S, [ev |-> "result", out |-> [i \in 1..N |-> IF ts[i].seen THEN [id |-> sc.calls[i].id, role |-> "tool", content |-> ts[i].output, nil |-> FALSE]
+                                                                 ELSE [id |-> "", role |-> "", content |-> "", nil |-> TRUE]]])
   /\ pc' = "done"
   /\ UNCHANGED <<sc, spawned, ts, sched>>
 
